@@ -197,6 +197,27 @@ def run_shard(spec, rec):
     R = random.Random(spec["seed"])
     env = JSONPathEnvironment()
     n = 0
+    # battery: the query argument is itself a primitive (incl. strings that look like JSON text: no entry point may decode them),
+    # and queries so long that evaluation runs out of interpreter stack (every entry point must fail the same way; far from
+    # the boundary on both sides so that the few frames by which the entry points differ cannot matter)
+    battery = [(t, d) for d in ["[1, 2]", "{\"a\": 1}", "[\"[1]\"]", "{}", "[]", " [1]", "\"a\"", "hello", "", "1", "null", "true", 0, 1.5, None, True, False]
+               for t in ["$", "$[0]", "$.a", "$[*]", "$..*", "$[?@]", "$['a']", "$[-1]", "$[?@ == 1]", "$[0][0]"]]
+    battery += [("$" + seg * k, d) for seg in ("[0]", ".a", "[*]", "['a','a']") for k in (200, 2500) for d in ([[[1]]], {"a": {"a": {"a": 1}}})]
+    if str(spec.get("seed", "")).endswith("/0"):
+        for t, doc in battery:
+            rec.wal({"query": t[:60], "document": D.short(doc, 100)})
+            try:
+                with guard(60):
+                    res, ones = all_paths(jp, env, t, doc)
+            except CaseTimeout:
+                rec.timeout(t[:60])
+                continue
+            rec.monitor("M-paths", len(res) + len(ones))
+            rec.case(("battery", t, repr(doc)), True)
+            rec.feat("case:battery")
+            v = judge(res, ones)
+            if v:
+                rec.violation(v[0], dict(v[1], query=t if len(t) < 200 else t[:40] + "... (%d characters)" % len(t), document=jsonable(doc), document_kind=type(doc).__name__))
     while n < spec["n"]:
         r = R.random()
         cfg = G.Cfg(filters=True, regex_functions=True, max_depth=2, max_segments=3)
@@ -210,7 +231,7 @@ def run_shard(spec, rec):
             rec.feat("case:lazy-failure")
         else:
             q = gen.query(root="$")
-            doc = D.doc_for(R, q, maxdepth=4, maxwidth=4, feat=rec.features)
+            doc = D.doc_for(R, q, maxdepth=4, maxwidth=4, feat=rec.features, shapes=0.03)
             rec.feat("case:generated")
         text = G.render(q, R, ws=R.choice(["none", "sparse"]), feat=rec.features)
         texts = [text]
@@ -238,7 +259,7 @@ def run_shard(spec, rec):
                 rec.sample({"query": t, "document": D.short(doc), "paths": len(res) + len(ones), "result": len(ref[0]) if ref[0] is not None else ref[1], "error": ref[1]}, limit=6)
             v = judge(res, ones)
             if v:
-                rec.violation(v[0], dict(v[1], query=t, document=jsonable(doc) if len(repr(doc)) < 3000 else "<large document>"))
+                rec.violation(v[0], dict(v[1], query=t, document=jsonable(doc) if len(repr(doc)) < 3000 else {"<elided>": "large document"}))
             elif ref[0] is not None and ref[1] is None and isinstance(doc, (list, dict)) and R.random() < 0.3:
                 # the document is updated in place: a query compiled before the update and the entry points that compile
                 # afresh must agree on the new content
@@ -267,7 +288,7 @@ def replay(case, rec):
     from jsonpath_rfc9535 import JSONPathEnvironment
     rec.case("r1", True)
     rec.case("r2", True)
-    if isinstance(case.get("document"), str):
+    if isinstance(case.get("document"), dict) and "<elided>" in case["document"]:
         return
     res, ones = all_paths(jp, JSONPathEnvironment(), case["query"], case["document"])
     rec.monitor("M-paths", len(res) + len(ones))
